@@ -93,6 +93,42 @@ Example C04_capture_dup_witnesses :
   ks [mkr F1 false TAmp2] = [Some (OPipeW PCapErr); Some (OPipeW PCapErr); None; None; None; None].
 Proof. vm_compute. repeat split; reflexivity. Qed.
 
+(* a builtin that runs as a STAGE of a pipeline (in a child): its descriptors 1 and 2 are the POSIX fold like any other
+   stage's; where its text goes is [builtin_child_text].  As the code is, the text of a builtin that is the LAST stage of a
+   CAPTURED pipeline is lost (finding captured-builtin-last-stage); with notes/C04-fix-6.patch (bcfix) it always follows
+   the fold. *)
+Theorem C04_builtin_child : forall bcfix fail_at openable pl sh i0 o0 e0,
+  std_ok (tab sh) i0 o0 e0 -> is_single_builtin pl = false ->
+  let r := run_pipeline v0 fail_at openable pl sh in
+  res_error r = false ->
+  kids_ok (fun idx st k =>
+             s_kind st = KBuiltin -> opens_ok openable st = true ->
+             let last := idx =? length (p_stages pl) - 1 in
+             let sk := posix_sinks (s_redirs st) (std_out o0 (length (p_stages pl)) (p_capture pl) idx,
+                                                  std_err e0 (length (p_stages pl)) (p_capture pl) idx) in
+             builtin_child_text bcfix (p_capture pl) last k
+             = if p_capture pl && last && negb bcfix then None else Some (Some (fst sk), Some (snd sk)))
+          0 (p_stages pl) (res_kids r).
+Proof.
+  intros bcfix fail_at openable pl sh i0 o0 e0 SO NB r NE.
+  pose proof (kids_ok_bound _ _ _ _ (pipeline_kids v0 openable fail_at pl sh i0 o0 e0 SO NB NE)) as K.
+  eapply kids_ok_impl; [|exact K]. cbn beta. intros idx st k ((_ & _ & _ & _ & HB) & BD) KB OK. cbn in BD.
+  destruct (HB KB OK) as (B & C).
+  assert (LE : idx <= length (p_stages pl) - 1) by lia.
+  rewrite (final_sinks_posix v0 (p_capture pl) (length (p_stages pl) - 1) idx (s_redirs st) o0 e0 LE
+             (or_intror (or_intror eq_refl))) in B, C.
+  replace (S (length (p_stages pl) - 1)) with (length (p_stages pl)) in B, C by lia.
+  cbv zeta. unfold builtin_child_text.
+  destruct (p_capture pl && (idx =? length (p_stages pl) - 1) && negb bcfix); [reflexivity|].
+  rewrite B, C. reflexivity.
+Qed.
+(* the finding and its repair on `$(prog | alias 2> f)` *)
+Example C04_captured_builtin_last_stage :
+  let r := run_pipeline v0 nf yes (mkplan [mks FNone [] KExt []; mks FNone [mkr F2 false (TFile 5)] KBuiltin []] true) sh0 in
+  map (builtin_child_text false true true) (tl (res_kids r)) = [None] /\
+  map (builtin_child_text true true true) (tl (res_kids r)) = [Some (Some (OPipeW PCapOut), Some (OFile 5 MTrunc))].
+Proof. vm_compute. split; reflexivity. Qed.
+
 (* a source or target that cannot be opened: the stage is not exec'd and exits with status 1;
    otherwise it is exec'd (external), and exactly the files a POSIX shell opens are opened *)
 Theorem C04_unopenable : forall v fail_at openable pl sh i0 o0 e0,
@@ -106,7 +142,7 @@ Theorem C04_unopenable : forall v fail_at openable pl sh i0 o0 e0,
 Proof.
   intros v fail_at openable pl sh i0 o0 e0 SO NB r NE.
   eapply kids_ok_impl; [|apply (pipeline_kids v openable fail_at pl sh i0 o0 e0 SO NB NE)].
-  cbn beta. intros idx st k (_ & A & B & _). split; [exact A|]. intros O KE. rewrite (B O), KE. reflexivity.
+  cbn beta. intros idx st k (_ & A & B & _ & _). split; [exact A|]. intros O KE. rewrite (B O), KE. reflexivity.
 Qed.
 
 (* ---- the builtin path (_get_std_fds) and the full statement ---- *)
@@ -185,7 +221,7 @@ Proof.
     subst pl. cbn [p_stages p_capture length] in K, KS.
     destruct (res_kids (run_pipeline v0 nf yes (mkplan [mks FNone rs KExt []] capture) sh0)) as [|k [|k2 kr]]; cbn [kids_ok] in K, KS;
       [cbn in K; destruct K | | destruct K as (_ & K2); cbn in K2; destruct K2].
-    destruct K as ((_ & _ & KO & _) & _). destruct KS as (KS & _).
+    destruct K as ((_ & _ & KO & _ & _) & _). destruct KS as (KS & _).
     assert (HE : k_out k = OExec).
     { rewrite KO; [reflexivity|]. unfold opens_ok, from_openable. cbn [s_from s_redirs andb].
       clear. induction rs as [|r rest IH]; [reflexivity|]. cbn [posix_opens]. unfold yes at 1.
@@ -227,6 +263,7 @@ Print Assumptions C04_parse_from.
 Print Assumptions C04_parse_from_attached.
 Print Assumptions C04_sinks.
 Print Assumptions C04_unopenable.
+Print Assumptions C04_builtin_child.
 Print Assumptions C04_builtin_sinks.
 Print Assumptions C04_shell_unaffected.
 Print Assumptions C04_holds.
